@@ -9,6 +9,7 @@ From Verif Require Import Filter.Loops.
 From Verif Require Import Filter.Spec.
 From Verif Require Import Filter.Proofs.
 From Verif Require Import Filter.Switch.
+From Verif Require Import Filter.Deviations.
 From Verif Require Import Filter.ResolveModel.
 From Verif Require Import Filter.ResolveProofs.
 From Coq Require Import Permutation.
@@ -73,6 +74,56 @@ Section C09.
     (f' = true <-> exists it, In it (items az r) /\ it_readable it = false /\ it_flagged it = true).
   Proof. exact (switch_flag_iff az). Qed.
 
+  (* ... and for every branch except the four that never clear the flag (IndexedNodeDump,
+     IndexedServiceTopology, IndexedExportedServiceList, IndexedNodesWithGateways) whatever the
+     flag was on entry.  For those four the hypothesis [flag0 r = false] of [C09_flag_iff] means
+     "the reply has not been through the filter before"; see [C09_flag_stale_refuted]. *)
+  Theorem C09_flag_iff_nonsticky : forall r f', wf r -> sticky_type r = false ->
+    flag_of (filter_response az r) = Some f' ->
+    (f' = true <-> exists it, In it (items az r) /\ it_readable it = false /\ it_flagged it = true).
+  Proof. exact (flag_iff_nonsticky az). Qed.
+
+  (* ---------- the filters' predicates against ONE independent rule of readability ----------
+     rule: the node under the element's own peer context, and every service the element names
+     ([may_node], [may_service]; an element naming no service needs no service permission) *)
+  Theorem C09_rule_check : forall c, readable_check az c = ideal_check az c.
+  Proof. exact (check_is_ideal az). Qed.
+  Theorem C09_rule_service_node : forall n, readable_snode az n = ideal_snode az n.
+  Proof. exact (snode_is_ideal az). Qed.
+  Theorem C09_rule_node_service : forall n s, readable_nsvc_on az n s = ideal_nsvc_on az n s.
+  Proof. exact (nsvc_on_is_ideal az). Qed.
+  Theorem C09_rule_node_check : forall n c, readable_check_on az n c = ideal_check_on az n c.
+  Proof. exact (check_on_is_ideal az). Qed.
+  Theorem C09_rule_service_info : forall s, readable_svcinfo az s = ideal_svcinfo az s.
+  Proof. exact (svcinfo_is_ideal az). Qed.
+  (* deviation empty-service-name (filter stricter): holds for named services *)
+  Theorem C09_rule_csn_partial : forall l,
+    forallb (fun c => negb (str_empty (c_svc c))) l = true ->
+    filter_csns az l = (filter (ideal_csn az) l, removed (ideal_csn az) l).
+  Proof. exact (csns_ideal az). Qed.
+  Theorem C09_rule_service_name_partial : forall s,
+    str_empty (sv_name s) = false -> readable_svcname az s = ideal_svcname az s.
+  Proof. exact (svcname_ideal_partial az). Qed.
+  (* deviation gateway-unchecked: holds when every gateway named is readable (what
+     Catalog.GatewayServices guarantees before it filters; Internal.ServiceDump does not) *)
+  Theorem C09_rule_gateway_partial : forall l,
+    forallb (fun g => may_service az EmptyString (gs_gateway g) && negb (str_empty (gs_service g))) l = true ->
+    filter_gateway_services az l = (filter (ideal_gwsvc az) l, removed (ideal_gwsvc az) l).
+  Proof. exact (gateway_services_ideal_partial az). Qed.
+  (* deviation service-list-node-context: holds when the instance carries its node's peer *)
+  Theorem C09_rule_service_list_partial : forall (n : node) s,
+    readable_node az n = true -> ns_peer s = nd_peer n ->
+    readable_nsvc az s = ideal_nsvc_on az (nd_name n) s.
+  Proof. exact (nsvc_list_ideal_partial az). Qed.
+  (* deviation txn-service-check: holds for node checks, and for service checks on a readable node *)
+  Theorem C09_rule_txn_partial : forall r,
+    match r with
+    | TCheck _ n s p => str_empty s = true \/ may_node az p n = true
+    | TSvc _ s _ => str_empty s = false
+    | _ => True
+    end -> readable_txn az r = ideal_txn az r.
+  Proof. exact (txn_ideal_partial az). Qed.
+
   (* ---------- map-iterating branches: the runtime's iteration order does not matter ---------- *)
 
   Theorem C09_exported_any_order : forall ord m flag,
@@ -118,6 +169,57 @@ Section C09.
     pq_token q = EmptyString \/ pq_token q = redacted.
   Proof. exact (query_tokens_redacted az). Qed.
 End C09.
+
+(* ---------- named deviations from the rule: witnesses ---------- *)
+
+(* OPEN FINDING stale-flag: a reply that went through one of the four never-clearing branches
+   before keeps its flag although this run removed nothing *)
+Theorem C09_flag_stale_refuted :
+  exists az r, sticky_type r = true /\ flag0 r = true
+  /\ (forall it, In it (items az r) -> it_readable it = true)
+  /\ flag_of (filter_response az r) = Some true.
+Proof. exact flag_stale_refuted. Qed.
+
+(* OPEN FINDING gateway-name-returned: Internal.ServiceDump's gateway mappings are filtered by the
+   linked service only; a mapping whose gateway may not be read is returned, nothing flagged *)
+Theorem C09_gateway_unchecked_refuted :
+  exists az g, readable_gwsvc az g = true /\ ideal_gwsvc az g = false
+  /\ filter_response az (RIndexedNodesWithGateways [] [] [g] false) = RIndexedNodesWithGateways [] [] [g] false.
+Proof. exact gateway_unchecked_refuted. Qed.
+
+Theorem C09_empty_service_name_refuted : exists az c, readable_csn az c = false /\ ideal_csn az c = true.
+Proof. exact empty_service_name_refuted. Qed.
+
+Theorem C09_service_list_node_context_refuted :
+  exists az n s, readable_node az n = true /\ readable_nsvc az s = true /\ ideal_nsvc_on az (nd_name n) s = false.
+Proof. exact service_list_node_context_refuted. Qed.
+
+Theorem C09_txn_service_check_refuted : exists az r, readable_txn az r = true /\ ideal_txn az r = false.
+Proof. exact txn_service_check_refuted. Qed.
+
+(* a NodeServiceList without a Node passes unfiltered (unreachable: the endpoint leaves Services
+   empty when the node does not exist, the condition of the partial theorem) *)
+Theorem C09_nil_node_passthrough_refuted :
+  exists az s, may_service az (ns_peer s) (ns_name s) = false
+  /\ filter_response az (RIndexedNodeServiceList None [s] false) = RIndexedNodeServiceList None [s] false.
+Proof. exact nil_node_passthrough_refuted. Qed.
+Theorem C09_nil_node_passthrough_partial : forall az f,
+  filter_response az (RIndexedNodeServiceList None [] f) = RIndexedNodeServiceList None [] false.
+Proof. exact nil_node_passthrough_partial. Qed.
+
+(* by design: an intention match REQUEST is refused as a whole; unnamed queries are invisible *)
+Theorem C09_intention_match_all_or_nothing_refuted :
+  exists az l i n, In (i, n) l /\ intention_read az n = true
+  /\ filter_response az (RIntentionQueryMatch (Some l)) = RIntentionQueryMatch None.
+Proof. exact intention_match_all_or_nothing_refuted. Qed.
+Theorem C09_intention_match_partial : forall az l,
+  forallb (fun e => str_empty (snd e) || intention_read az (snd e)) l = true ->
+  filter_response az (RIntentionQueryMatch (Some l)) = RIntentionQueryMatch (Some l).
+Proof. exact intention_match_partial. Qed.
+Theorem C09_unnamed_query_invisible : forall az q f,
+  acl_write az = false -> query_named q = false ->
+  filter_response az (RIndexedPreparedQueries [q] f) = RIndexedPreparedQueries [] false.
+Proof. exact unnamed_query_invisible. Qed.
 
 (* ---------- token expiry ---------- *)
 
@@ -168,6 +270,42 @@ Theorem C09_expired_cache_extended : forall env fuel t last down,
   resolve_loop env down (S fuel) 0 (Some t) last = (OErr ENotFound, Some t).
 Proof. exact cached_stale_primary_down_expired. Qed.
 
+(* ---------- the authorizer of the runs of a blocking query ---------- *)
+
+(* endpoints whose query function resolves the token again in every run (filterACL): every run the
+   token authorizes happens before its expiration, for every schedule of runs *)
+Theorem C09_reresolved_runs_unexpired : forall (resolve_at : N -> outcome),
+  (forall now t, resolve_at now = OGranted t -> is_expired t now = false) ->
+  forall times k t now,
+    nth_error (blocking_reresolve resolve_at times) k = Some (ByToken t) ->
+    nth_error times k = Some now -> is_expired t now = false.
+Proof. exact reresolve_runs_unexpired. Qed.
+
+(* the hypothesis above is what ResolveToken provides when its clock shows [now] *)
+Theorem C09_resolve_at_unexpired : forall acls cls bk fresh rpc pol down cache now t c',
+  resolve_token acls cls (env_at bk fresh rpc pol now) down cache = (OGranted t, c') -> is_expired t now = false.
+Proof. exact resolve_at_unexpired. Qed.
+
+(* OPEN FINDING expired-token-honoured-in-blocking-query: endpoints that resolve once and keep the
+   authorizer (Catalog.ListServices, KVS.List, ...) run after the expiration with the token's authorizer *)
+Theorem C09_held_authorizer_refuted :
+  exists t now0 times k now,
+    is_expired t now0 = false /\ nth_error times k = Some now /\ is_expired t now = true
+    /\ nth_error (blocking_held (OGranted t) times) k = Some (ByToken t).
+Proof. exact held_after_expiry_refuted. Qed.
+
+(* ... they satisfy the property exactly when no run happens after the expiration *)
+Theorem C09_held_authorizer_partial : forall t times,
+  (forall now, In now times -> is_expired t now = false) ->
+  forall k now, nth_error (blocking_held (OGranted t) times) k = Some (ByToken t) ->
+    nth_error times k = Some now -> is_expired t now = false.
+Proof. exact held_partial. Qed.
+
+(* rpc.go maskResultsFilteredByACLs: only ever clears; clears for blank / unresolvable / anonymous *)
+Theorem C09_mask : forall blank ok anon flag,
+  mask_flag blank ok anon flag = flag && negb blank && ok && negb anon.
+Proof. exact mask_spec. Qed.
+
 (* ---------- non-vacuity ---------- *)
 Definition ex_az : authz :=
   Authz (fun _ n => negb (String.eqb n "bad")) (fun _ n => negb (String.eqb n "bad"))
@@ -194,6 +332,30 @@ Proof.
   - repeat constructor; cbn; intuition discriminate.
   - intros kv. rewrite <- in_rev. reflexivity.
 Qed.
+
+(* the other any-order theorems with a visiting order different from the stored one *)
+Example C09_example_any_order_maps :
+  let m := [("bad"%string, 1%N); ("web"%string, 2%N); ("api"%string, 3%N)] in
+  let ns := [("i-1"%string, NS 1 "i-1" "bad" ""); ("i-2"%string, NS 2 "i-2" "web" "")] in
+  let dc := [("dc1"%string, [CSN 1 "n1" "bad" ""]); ("dc2"%string, [CSN 2 "n1" "web" ""; CSN 3 "bad" "web" ""])] in
+  (NoDup (map fst m) /\ (forall kv, In kv (rev m) <-> In kv m)
+   /\ filter_services_ord ex_az (rev m) m = ([("web"%string, 2%N); ("api"%string, 3%N)], true))
+  /\ (NoDup (map fst ns) /\ (forall kv, In kv (rev ns) <-> In kv ns)
+      /\ filter_node_services_ord ex_az (rev ns) (Some (ND 9 "n1" "", ns)) = (Some (ND 9 "n1" "", [("i-2"%string, NS 2 "i-2" "web" "")]), true))
+  /\ (Permutation (rev dc) dc /\ dc_loop ex_az (rev dc) [] false = ([("dc2"%string, [CSN 2 "n1" "web" ""])], true)).
+Proof.
+  cbv zeta. repeat split; try reflexivity; try (repeat constructor; cbn; intuition discriminate);
+    try (intros H; apply in_rev in H; exact H); try (intros H; apply in_rev; rewrite rev_involutive; exact H).
+Qed.
+
+(* secrets and captured query tokens are hidden from a reader without acl:write *)
+Example C09_example_redaction :
+  acl_write ex_az = false
+  /\ filter_response ex_az (RACLTokens [Some (TK 1 "s3cret"); None; Some (TK 2 "")])
+     = RACLTokens [Some (TK 1 redacted); Some (TK 2 redacted)]
+  /\ filter_response ex_az (RIndexedPreparedQueries [PQ 1 "q" false "s3cret"; PQ 2 "q2" false ""; PQ 3 "" false "x"] false)
+     = RIndexedPreparedQueries [PQ 1 "q" false redacted; PQ 2 "q2" false ""] false.
+Proof. repeat split. Qed.
 
 (* adjacent removals, first and last element, nested lists *)
 Example C09_example_node_dump :
@@ -240,3 +402,31 @@ Print Assumptions C09_example_exported.
 Print Assumptions C09_example_any_order.
 Print Assumptions C09_example_node_dump.
 Print Assumptions C09_example_expired.
+Print Assumptions C09_flag_iff_nonsticky.
+Print Assumptions C09_rule_check.
+Print Assumptions C09_rule_service_node.
+Print Assumptions C09_rule_node_service.
+Print Assumptions C09_rule_node_check.
+Print Assumptions C09_rule_service_info.
+Print Assumptions C09_rule_csn_partial.
+Print Assumptions C09_rule_service_name_partial.
+Print Assumptions C09_rule_gateway_partial.
+Print Assumptions C09_rule_service_list_partial.
+Print Assumptions C09_rule_txn_partial.
+Print Assumptions C09_flag_stale_refuted.
+Print Assumptions C09_gateway_unchecked_refuted.
+Print Assumptions C09_empty_service_name_refuted.
+Print Assumptions C09_service_list_node_context_refuted.
+Print Assumptions C09_txn_service_check_refuted.
+Print Assumptions C09_nil_node_passthrough_refuted.
+Print Assumptions C09_nil_node_passthrough_partial.
+Print Assumptions C09_intention_match_all_or_nothing_refuted.
+Print Assumptions C09_intention_match_partial.
+Print Assumptions C09_unnamed_query_invisible.
+Print Assumptions C09_reresolved_runs_unexpired.
+Print Assumptions C09_resolve_at_unexpired.
+Print Assumptions C09_held_authorizer_refuted.
+Print Assumptions C09_held_authorizer_partial.
+Print Assumptions C09_mask.
+Print Assumptions C09_example_any_order_maps.
+Print Assumptions C09_example_redaction.
